@@ -30,8 +30,8 @@ import (
 func init() {
 	register(&core.Prop{
 		ID: "C19",
-		Rule: "seeded operation programs of length 5-200 over a population of 2-8 live tensors (float64, int, string; contiguous, column-major, views): construction, Slice, ShallowClone, T/UT/Transpose/SafeT/RollAxis, Reshape, Clone/Materialize, elementwise arithmetic/comparison/unary in safe/unsafe/reuse/incr modes with tensors and scalars, Apply, Sum/Max/Argmax with caller-owned axes, MatMul/MatVecMul/Outer/TensorMul with caller-owned axes, Repeat with caller-owned counts, Concat/Stack, masking predicates, MaskFromSlice with a caller-owned mask, SetAt/At with caller-owned coordinates, Memset/Zero, ReturnTensor of finished tensors (plain tensors, views, parents of live views, masked tensors), UsePool/DontUsePool toggles, BorrowInts/ReturnInts by the application, garbage collections with allocation churn, bursts of constructions that drain the pools. " +
-			"Oracle: after every step, every live tensor not named as destination equals its snapshot from before the step (elements, shape, strides, order, mask, bookkeeping); tensors sharing storage with the destination may differ in elements only; every caller-owned slice ever passed (including its hidden capacity) equals its copy after the call and after every later step; slices borrowed by the application stay as written until returned. distinct_nontrivial counts distinct (operation, population shape signature) classes.",
+		Rule: "seeded random and feature-guided operation programs of length 5-200 over a population of 2-8 live tensors (float64, int, string; contiguous, column-major, views): construction, Slice, ShallowClone, T/UT/Transpose/SafeT/RollAxis, Reshape, Clone/Materialize, elementwise arithmetic/comparison/unary in safe/unsafe/reuse/incr modes with tensors and scalars, Apply, Sum/Max/Argmax with caller-owned axes, MatMul/MatVecMul/Outer/TensorMul with caller-owned axes, Repeat with caller-owned counts, Concat/Stack, masking predicates, MaskFromSlice with a caller-owned mask, SetAt/At with caller-owned coordinates, Memset/Zero, ReturnTensor of finished tensors (plain tensors, views, parents of live views, masked tensors), UsePool/DontUsePool toggles, BorrowInts/ReturnInts by the application, garbage collections with allocation churn, bursts of constructions that drain the pools. " +
+			"Oracle: after every step, every live tensor not named as destination equals its snapshot from before the step (elements, shape, strides, order, mask, bookkeeping); tensors sharing storage with the destination may differ in elements only; every caller-owned slice ever passed (including its hidden capacity) equals its copy after the call and after every later step; slices borrowed by the application stay as written until returned. distinct_nontrivial counts distinct (operation, population shape signature) classes. Guided programs (guided#* groups): a per-batch corpus keeps each program that exercised a feature (operation+mode x state classes of destination and first operand x outcome, or a pair of consecutive operations) no earlier program of the batch had; three new programs in four replay a corpus program up to a random step and continue on another PRNG stream.",
 		Assume: []string{"a tensor handed to ReturnTensor is finished: the program never touches it again (its views and unrelated tensors stay live and are monitored)"},
 		Flavours: func(tier string) []string {
 			if tier == "thorough" {
@@ -52,6 +52,14 @@ func c19Groups(tier string) []core.Group {
 	for i := 0; i < n; i++ {
 		i := i
 		gs = append(gs, core.Group{Key: fmt.Sprintf("programs#%d", i), Run: func(c *core.Ctx) { c19Batch(c, i, per) }})
+	}
+	gn, giter := 32, 64
+	if tier == "thorough" {
+		gn, giter = 64, 400
+	}
+	for i := 0; i < gn; i++ {
+		i := i
+		gs = append(gs, core.Group{Key: fmt.Sprintf("guided#%d", i), Run: func(c *core.Ctx) { c19Guided(c, i, giter) }})
 	}
 	return gs
 }
@@ -97,6 +105,45 @@ type c19State struct {
 	debug  bool
 	// afterGC is called after a step that ran the collector: addresses may be reused from then on, so the pool trace starts afresh
 	afterGC func()
+	// guided generation: the features (operation, option mode, state classes of destination and operands, outcome; and
+	// consecutive operation pairs) this program exercised, and the steps at which the PRNG is exchanged (a program of the
+	// corpus is replayed up to such a step and continued differently)
+	feats  map[string]struct{}
+	prevOp string
+	reseed map[int]int64
+}
+
+// c19Class names the state class of a live tensor, for the feature keys of guided generation.
+func c19Class(t *c19T) string {
+	if t == nil || t.d == nil {
+		return "-"
+	}
+	cl := t.kind
+	var p bool
+	p, _ = core.Catch(func() {
+		if t.d.IsView() {
+			cl += "v"
+		}
+		if t.d.IsMasked() {
+			cl += "m"
+		}
+		if t.d.DataOrder().IsColMajor() {
+			cl += "f"
+		}
+		if !t.d.DataOrder().IsContiguous() {
+			cl += "n"
+		}
+		if t.d.RequiresIterator() {
+			cl += "i"
+		}
+	})
+	if p {
+		cl += "?"
+	}
+	if t.taint != "" {
+		cl += "k"
+	}
+	return cl
 }
 
 var c19Shapes = [][]int{{6}, {2, 3}, {3, 2}, {3, 4}, {4, 3}, {2, 2, 3}, {2, 3, 2}, {4}, {1, 4}, {3, 1}, {2, 2, 2, 2}}
@@ -880,9 +927,19 @@ func at(v []interface{}, i int) interface{} {
 }
 
 func (s *c19State) step(prog int, i int) bool {
+	if seed, ok := s.reseed[i]; ok {
+		s.rng = rand.New(rand.NewSource(seed))
+	}
 	a := s.next()
 	if a == nil {
 		return true
+	}
+	var featPre string
+	if s.feats != nil {
+		featPre = a.name + "|d=" + c19Class(a.dest)
+		if len(a.operand) > 0 {
+			featPre += "|" + c19Class(a.operand[0])
+		}
 	}
 	ids := func(ts []*c19T) string {
 		var o []string
@@ -932,6 +989,17 @@ func (s *c19State) step(prog int, i int) bool {
 		s.c.Tally("step-panicked:" + opClass)
 	} else if err != nil {
 		s.c.Tally("step-refused:" + opClass)
+	}
+	if s.feats != nil {
+		out := "ok"
+		if p {
+			out = "panic"
+		} else if err != nil {
+			out = "refused"
+		}
+		s.feats[featPre+"|"+out] = struct{}{}
+		s.feats[s.prevOp+">"+opClass] = struct{}{}
+		s.prevOp = opClass
 	}
 	desc := func() map[string]interface{} {
 		h := s.hist
@@ -1099,65 +1167,79 @@ func c19DrainPools() {
 	tensor.VerifSetPoolHook(nil)
 }
 
+// c19Program runs one program: the PRNG seeded with seed, a length drawn from it (length < 0) or given, the PRNG exchanged at
+// the steps named in reseed. It returns the final state (history, features).
+func c19Program(c *core.Ctx, batch, pi int, seed int64, length int, reseed map[int]int64, feats bool) *c19State {
+	tensor.UsePool()
+	c19DrainPools()
+	gcWas := debug.SetGCPercent(-1)
+	// pool trace: with the collector off an address names one array for the whole program, so an array handed back twice
+	// with no borrow in between sits in the pool twice and will be issued to two owners
+	inPool := map[[2]uintptr]bool{}
+	doubleReturn := ""
+	poolEvents := 0
+	tensor.VerifSetPoolHook(func(kind int, ptr uintptr, l, cp int) {
+		if ptr == 0 {
+			return
+		}
+		poolEvents++
+		k := [2]uintptr{uintptr(kind / 2), ptr}
+		switch kind {
+		case 0, 2:
+			inPool[k] = false
+		case 1, 3:
+			if inPool[k] && doubleReturn == "" {
+				doubleReturn = tensor.VerifPoolEventKinds[kind]
+			}
+			inPool[k] = true
+		}
+	})
+	rng := rand.New(rand.NewSource(seed))
+	s := &c19State{c: c, rng: rng, pool: true, debug: os.Getenv("VERIF_C19_DEBUG") == fmt.Sprintf("%d/%d", batch, pi), reseed: reseed}
+	if feats {
+		s.feats = map[string]struct{}{}
+	}
+	s.afterGC = func() {
+		for k := range inPool {
+			delete(inPool, k)
+		}
+	}
+	if length < 0 {
+		length = 5 + rng.Intn(196)
+	}
+	c.Begin(fmt.Sprintf("program%d", pi))
+	for i := 0; i < length; i++ {
+		if !s.step(pi, i) {
+			s.failed = true
+			break // everything after the first corruption of a program would be its consequence: one program, one finding
+		}
+		if doubleReturn != "" {
+			op := s.hist[len(s.hist)-1]
+			if j := strings.IndexAny(op, " /"); j > 0 {
+				op = op[:j]
+			}
+			h := s.hist
+			if len(h) > 60 {
+				h = h[len(h)-60:]
+			}
+			c.Violation(core.Sig(op, "pool-double-return", doubleReturn), fmt.Sprintf("prog/program%d/step%d/%s", pi, i, op),
+				map[string]interface{}{"program": pi, "step": i, "history": append([]string(nil), h...)}, "an array is returned to its pool once per borrow", "returned again while already in the pool")
+			s.failed = true
+			break
+		}
+	}
+	tensor.VerifSetPoolHook(nil)
+	debug.SetGCPercent(gcWas)
+	c.Extra("program_steps", len(s.hist))
+	c.Extra("pool_events", poolEvents)
+	return s
+}
+
 func c19Batch(c *core.Ctx, batch, per int) {
 	prevP := runtime.GOMAXPROCS(1)
 	defer runtime.GOMAXPROCS(prevP)
 	for pi := 0; pi < per; pi++ {
-		tensor.UsePool()
-		c19DrainPools()
-		gcWas := debug.SetGCPercent(-1)
-		// pool trace: with the collector off an address names one array for the whole program, so an array handed back twice
-		// with no borrow in between sits in the pool twice and will be issued to two owners
-		inPool := map[[2]uintptr]bool{}
-		doubleReturn := ""
-		poolEvents := 0
-		tensor.VerifSetPoolHook(func(kind int, ptr uintptr, l, cp int) {
-			if ptr == 0 {
-				return
-			}
-			poolEvents++
-			k := [2]uintptr{uintptr(kind / 2), ptr}
-			switch kind {
-			case 0, 2:
-				inPool[k] = false
-			case 1, 3:
-				if inPool[k] && doubleReturn == "" {
-					doubleReturn = tensor.VerifPoolEventKinds[kind]
-				}
-				inPool[k] = true
-			}
-		})
-		rng := rand.New(rand.NewSource(core.SeedFor(c.Seed, fmt.Sprintf("c19/%d/%d", batch, pi))))
-		s := &c19State{c: c, rng: rng, pool: true, debug: os.Getenv("VERIF_C19_DEBUG") == fmt.Sprintf("%d/%d", batch, pi)}
-		s.afterGC = func() {
-			for k := range inPool {
-				delete(inPool, k)
-			}
-		}
-		length := 5 + rng.Intn(196)
-		c.Begin(fmt.Sprintf("program%d", pi))
-		for i := 0; i < length; i++ {
-			if !s.step(pi, i) {
-				break // everything after the first corruption of a program would be its consequence: one program, one finding
-			}
-			if doubleReturn != "" {
-				op := s.hist[len(s.hist)-1]
-				if j := strings.IndexAny(op, " /"); j > 0 {
-					op = op[:j]
-				}
-				h := s.hist
-				if len(h) > 60 {
-					h = h[len(h)-60:]
-				}
-				c.Violation(core.Sig(op, "pool-double-return", doubleReturn), fmt.Sprintf("prog/program%d/step%d/%s", pi, i, op),
-					map[string]interface{}{"program": pi, "step": i, "history": append([]string(nil), h...)}, "an array is returned to its pool once per borrow", "returned again while already in the pool")
-				break
-			}
-		}
-		tensor.VerifSetPoolHook(nil)
-		debug.SetGCPercent(gcWas)
-		c.Extra("program_steps", len(s.hist))
-		c.Extra("pool_events", poolEvents)
+		c19Program(c, batch, pi, core.SeedFor(c.Seed, fmt.Sprintf("c19/%d/%d", batch, pi)), -1, nil, false)
 	}
 	tensor.UsePool()
 	// negative control: a change of an undesignated tensor is noticed by the comparison
@@ -1169,6 +1251,71 @@ func c19Batch(c *core.Ctx, batch, per int) {
 	t2.d.T()
 	w2, _ := s.compare(t2, false)
 	c.Control(w == "elements" && w2 != "")
+}
+
+// c19Guided is feature-guided generation. A corpus keeps every program that exercised a feature no earlier program of this
+// batch had (a feature: operation and option mode x state classes of destination and operands x outcome, or a pair of
+// consecutive operations). A new program is, one time in four, random; otherwise a corpus program replayed up to a random
+// step and continued with another PRNG stream. Everything is derived from the run seed, so a batch replays identically.
+func c19Guided(c *core.Ctx, batch, iterations int) {
+	prevP := runtime.GOMAXPROCS(1)
+	defer runtime.GOMAXPROCS(prevP)
+	type prog struct {
+		seed   int64
+		length int
+		reseed map[int]int64
+	}
+	pick := rand.New(rand.NewSource(core.SeedFor(c.Seed, fmt.Sprintf("c19/guided/%d", batch))))
+	global := map[string]struct{}{}
+	var corpus []prog
+	randomFeats, kept := 0, 0
+	for it := 0; it < iterations; it++ {
+		var p prog
+		if len(corpus) == 0 || pick.Intn(4) == 0 {
+			p = prog{seed: pick.Int63(), length: 5 + pick.Intn(196)}
+		} else {
+			// later corpus entries reached rarer features: prefer them
+			k := len(corpus) - 1 - int(float64(len(corpus))*pick.Float64()*pick.Float64())
+			parent := corpus[k]
+			at := pick.Intn(parent.length)
+			p = prog{seed: parent.seed, reseed: map[int]int64{at: pick.Int63()}}
+			for a, sd := range parent.reseed {
+				if a < at {
+					p.reseed[a] = sd
+				}
+			}
+			p.length = at + 5 + pick.Intn(120)
+			if p.length > 200 {
+				p.length = 200
+			}
+		}
+		s := c19Program(c, batch, 1000+it, p.seed, p.length, p.reseed, true)
+		fresh := 0
+		for f := range s.feats {
+			if _, ok := global[f]; !ok {
+				global[f] = struct{}{}
+				fresh++
+			}
+		}
+		if p.reseed == nil {
+			randomFeats += fresh
+		}
+		if fresh > 0 && !s.failed {
+			if len(s.hist) < p.length {
+				p.length = len(s.hist)
+			}
+			if p.length > 0 {
+				corpus = append(corpus, p)
+				kept++
+			}
+		}
+	}
+	tensor.UsePool()
+	c.Extra("guided_programs", iterations)
+	c.Extra("guided_corpus_kept", kept)
+	c.Extra("guided_features", len(global))
+	c.Extra("guided_features_first_seen_in_random_programs", randomFeats)
+	c.Control(len(global) > 0)
 }
 
 func fmtSlices(sl []tensor.Slice) string {
